@@ -784,37 +784,37 @@
             }
         };
     }
-    // @h props=C13,C02 tier=quick group=ooc allow=(placeholder.message|assertion.failed).*in.function.bytes::Bytes::slice must_fail=in.function.bytes::Bytes::slice note=Bytes::slice(begin>end_or_end>len)
+    // @h props=C13,C02 tier=quick group=ooc allow=@PANIC@ must_fail=@PANIC@ note=Bytes::slice(begin>end_or_end>len)
     ooc!(ooc_slice, |b, g| {
         let x: usize = kani::any();
         let y: usize = kani::any();
         kani::assume(x > y || y > g.len);
         let _ = b.slice(x..y);
     });
-    // @h props=C13,C02 tier=quick group=ooc allow=placeholder.message.*in.function.core::option::expect_failed|(placeholder.message|assertion.failed).*in.function.bytes::Bytes::slice must_fail=. note=Bytes::slice(..=usize::MAX)
+    // @h props=C13,C02 tier=quick group=ooc allow=@PANIC@ must_fail=@PANIC@ note=Bytes::slice(..=usize::MAX)
     ooc!(ooc_slice_inclusive_max, |b, g| {
         let x: usize = kani::any();
         let _ = b.slice(x..=usize::MAX);
     });
-    // @h props=C13,C02 tier=quick group=ooc allow=(placeholder.message|assertion.failed).*in.function.bytes::Bytes::split_off must_fail=in.function.bytes::Bytes::split_off note=Bytes::split_off(at>len)
+    // @h props=C13,C02 tier=quick group=ooc allow=@PANIC@ must_fail=@PANIC@ note=Bytes::split_off(at>len)
     ooc!(ooc_split_off, |b, g| {
         let at: usize = kani::any();
         kani::assume(at > g.len);
         let _ = b.split_off(at);
     });
-    // @h props=C13,C02 tier=quick group=ooc allow=(placeholder.message|assertion.failed).*in.function.bytes::Bytes::split_to must_fail=in.function.bytes::Bytes::split_to note=Bytes::split_to(at>len)
+    // @h props=C13,C02 tier=quick group=ooc allow=@PANIC@ must_fail=@PANIC@ note=Bytes::split_to(at>len)
     ooc!(ooc_split_to, |b, g| {
         let at: usize = kani::any();
         kani::assume(at > g.len);
         let _ = b.split_to(at);
     });
-    // @h props=C13,C02 tier=quick group=ooc allow=(placeholder.message|assertion.failed).*in.function.<bytes::Bytes.as.buf::buf_impl::Buf>::advance must_fail=advance note=Bytes::advance(n>len)
+    // @h props=C13,C02 tier=quick group=ooc allow=@PANIC@ must_fail=@PANIC@ note=Bytes::advance(n>len)
     ooc!(ooc_advance, |b, g| {
         let n: usize = kani::any();
         kani::assume(n > g.len);
         b.advance(n);
     });
-    // @h props=C13,C02 tier=quick group=ooc allow=(placeholder.message|assertion.failed).*in.function.bytes::Bytes::slice_ref must_fail=in.function.bytes::Bytes::slice_ref note=Bytes::slice_ref(foreign_or_overhanging_slice)
+    // @h props=C13,C02 tier=quick group=ooc allow=@PANIC@ must_fail=@PANIC@ note=Bytes::slice_ref(foreign_or_overhanging_slice)
     ooc!(ooc_slice_ref, |b, g| {
         // a non-empty sub-slice of the SAME allocation that is not inside the view (before it, behind it or
         // overhanging), or a slice of a different allocation
